@@ -39,8 +39,8 @@ ToSqlOK(f, conf, calls, err) ==
 
 (***************************************************************************)
 (* ReadSQL: column type from the first non-NULL value; leading NULLs are    *)
-(* back-filled in text and float columns; NULL in int / bool columns and   *)
-(* entirely NULL columns are rejected; coercions Int64ToBool (1) and       *)
+(* back-filled in text and float columns; entirely NULL columns are       *)
+(* rejected, NULL in int / bool columns is unspecified; coercions Int64ToBool (1) and       *)
 (* StringToFloat (2).                                                      *)
 (***************************************************************************)
 SqlKind(v) == CASE v.t = "int" -> "int" [] v.t = "float" -> "float" [] v.t = "bool" -> "bool"
@@ -64,7 +64,9 @@ SqlColumn(name, vals, coerce, fparse, precision) ==
   ELSE IF Cardinality(kinds) > 1 THEN [st |-> "unspec"]                    \* values of several types in one column
   ELSE LET k == CHOOSE x \in kinds : TRUE IN
        IF k \in {"int", "bool"} THEN
-          IF \E r \in 1..Len(vals) : vals[r].t = "null" THEN [st |-> "err"]
+          \* a NULL in an int / bool column: outside C19's quantifier ("NULLs occur in text or float
+          \* columns"); the code rejects it after the first value and drops it before - unspecified
+          IF \E r \in 1..Len(vals) : vals[r].t = "null" THEN [st |-> "unspec"]
           ELSE [st |-> "ok", col |-> PlainCol(name, k, [r \in 1..Len(vals) |-> vals[r].c])]
        ELSE [st |-> "ok", col |-> PlainCol(name, k, [r \in 1..Len(vals) |-> IF vals[r].t = "null" THEN NullCell ELSE vals[r].c])]
 
